@@ -22,7 +22,7 @@
 (* All programs, operand contents and expected outputs are written as JSON.   *)
 EXTENDS Integers, Sequences, FiniteSets, TLC, Json, IOUtils, FiniteSetsExt, SequencesExt, Functions
 
-CONSTANTS Tier,      \* "tiny" | "quick" | "thorough": the bounded domain, see Opt
+CONSTANTS Tier,      \* "micro" | "quick" | "thorough": the bounded domain, see Opt
           BatchN,    \* batch size N > 1 of operands that are not broadcast
           StrictOrder \* FALSE: ordered_indices as in the code (ties possible);
                       \* TRUE : repaired variant, ties broken by first-assignment order
@@ -46,8 +46,13 @@ SymStr(s) == IF s >= 100 THEN UpLetters[s - 100] ELSE Letters[s]
 
 Prod(s) == FoldLeft(LAMBDA a, b : a * b, 1, s)
 SumSeq(s) == FoldLeft(LAMBDA a, b : a + b, 0, s)
-Strides(sh) == [d \in 1..Len(sh) |-> Prod(SubSeq(sh, d + 1, Len(sh)))]
-Unflat(p, sh) == LET st == Strides(sh) IN [d \in 1..Len(sh) |-> (((p - 1) \div st[d]) % sh[d]) + 1]
+\* TLC keeps [x \in S |-> e] unevaluated and re-evaluates e at every application;
+\* Force turns a sequence-valued function into an explicit tuple (evaluated once)
+Force(s) == SubSeq(s, 1, Len(s))
+Strides(sh) == Force([d \in 1..Len(sh) |-> Prod(SubSeq(sh, d + 1, Len(sh)))])
+\* multi-index (1-based) of flat position p (1-based) in row-major layout; st = Strides(sh)
+UnflatS(p, sh, st) == [d \in 1..Len(sh) |-> (((p - 1) \div st[d]) % sh[d]) + 1]
+Unflat(p, sh) == UnflatS(p, sh, Strides(sh))
 IndexOf(s, e) == CHOOSE i \in 1..Len(s) : s[i] = e
 InSeq(s, e) == \E i \in 1..Len(s) : s[i] = e
 MaxOf(S) == CHOOSE x \in S : \A y \in S : x >= y
@@ -116,27 +121,27 @@ OutShape(p) == <<OutBatch(p)>> \o [j \in 1..Len(p.out) |-> p.sz[p.out[j]]]
 OpShape(p, k) == (IF p.bs[k] = 0 THEN <<>> ELSE <<p.bs[k]>>) \o [j \in 1..Len(p.ix[k]) |-> p.sz[p.ix[k][j]]]
 Work(p) == Prod(OutShape(p)) * Prod([j \in 1..Cardinality(Contr(p)) |-> p.sz[SetToSeq(Contr(p))[j]]])
 
-\* the bounded domain per tier and number of final particles
+\* the bounded domain: per tier and number n of final particles a set of
+\* families [sizes, ones (max. number of size-1 particles), al, rev, sw, b1, work]
+Fam(sizes, ones, al, rev, sw, b1, work) ==
+    [sizes |-> sizes, ones |-> ones, al |-> al, rev |-> rev, sw |-> sw, b1 |-> b1, work |-> work]
 Opt(n) ==
-    CASE Tier = "tiny" ->
-           [on |-> n \in {2, 3}, sizes |-> {1, 2}, al |-> "any", rev |-> {FALSE, TRUE}, sw |-> "any",
-            b1 |-> IF n = 2 THEN B1All ELSE {"none"}, work |-> 200]
+    CASE Tier = "micro" ->
+           IF n = 2 THEN {Fam({2}, 0, "any", {FALSE}, "none", {"none", "scalar"}, 100000)}
+           ELSE IF n = 3 THEN {Fam({2}, 0, "any", {FALSE}, "all", {"none"}, 100000)} ELSE {}
       [] Tier = "quick" ->
-           CASE n = 2 -> [on |-> TRUE, sizes |-> {1, 2, 3}, al |-> "any", rev |-> {FALSE}, sw |-> "any",
-                          b1 |-> B1All, work |-> 100000]
-             [] n = 3 -> [on |-> TRUE, sizes |-> {1, 2}, al |-> "any", rev |-> {FALSE, TRUE}, sw |-> "any",
-                          b1 |-> {"none"}, work |-> 100000]
-             [] n = 4 -> [on |-> TRUE, sizes |-> {1, 2}, al |-> "spin", rev |-> {FALSE}, sw |-> "none",
-                          b1 |-> {"none"}, work |-> 600]
-             [] OTHER -> [on |-> FALSE]
+           CASE n = 2 -> {Fam({1, 2}, 3, "any", {FALSE}, "any", B1All, 100000)}
+             [] n = 3 -> {Fam({1, 2}, 1, "any", {FALSE}, "all", {"none"}, 100000)}
+             [] n = 4 -> {Fam({2}, 0, "spin", {FALSE}, "all", {"none"}, 100000)}
+             [] OTHER -> {}
       [] Tier = "thorough" ->
-           CASE n = 2 -> [on |-> TRUE, sizes |-> {1, 2, 3}, al |-> "any", rev |-> {FALSE}, sw |-> "any",
-                          b1 |-> B1All, work |-> 100000]
-             [] n = 3 -> [on |-> TRUE, sizes |-> {1, 2, 3}, al |-> "any", rev |-> {FALSE, TRUE}, sw |-> "any",
-                          b1 |-> {"none", "first", "total", "last"}, work |-> 1500]
-             [] n = 4 -> [on |-> TRUE, sizes |-> {1, 2}, al |-> "spin", rev |-> {FALSE, TRUE}, sw |-> "all",
-                          b1 |-> {"none", "total"}, work |-> 2500]
-             [] OTHER -> [on |-> FALSE]
+           CASE n = 2 -> {Fam({1, 2, 3}, 3, "any", {FALSE}, "any", B1All, 100000)}
+             [] n = 3 -> {Fam({1, 2}, 5, "any", {FALSE}, "any", {"none"}, 100000),
+                          Fam({1, 2}, 1, "any", {TRUE}, "any", {"none"}, 100000),
+                          Fam({2, 3}, 0, "spin", {FALSE}, "all", {"none"}, 3000),
+                          Fam({2}, 0, "any", {FALSE}, "none", B1All, 100000)}
+             [] n = 4 -> {Fam({1, 2}, 1, "spin", {FALSE}, "all", {"none"}, 2500)}
+             [] OTHER -> {}
 
 AlSet(n, o, sz) ==
     IF o.al = "any" THEN [1..n -> {0, 1}]
@@ -144,15 +149,15 @@ AlSet(n, o, sz) ==
 SwSet(n, o) ==
     IF o.sw = "any" THEN SUBSET (1..(n - 1))
     ELSE IF o.sw = "all" THEN {{}, 1..(n - 1)} ELSE {{}}
+SzSet(n, o) == {sz \in [1..(2 * n - 1) -> o.sizes] : Cardinality({i \in 1..(2 * n - 1) : sz[i] = 1}) <= o.ones}
 
-ProgramsN(n) ==
-    LET o == Opt(n) IN
-    IF ~o.on THEN {}
-    ELSE LET forms == CF(n)
-             raw == UNION {{MkProg(n, c, sz, al, rev, sw, b1) :
-                              c \in forms, al \in AlSet(n, o, sz), rev \in o.rev, sw \in SwSet(n, o), b1 \in o.b1}
-                           : sz \in [1..(2 * n - 1) -> o.sizes]}
-         IN {p \in raw : Work(p) <= o.work /\ Cardinality(Contr(p)) <= 6}
+ProgramsF(n, o) ==
+    LET forms == CF(n)
+        raw == UNION {{MkProg(n, c, sz, al, rev, sw, b1) :
+                         c \in forms, al \in AlSet(n, o, sz), rev \in o.rev, sw \in SwSet(n, o), b1 \in o.b1}
+                      : sz \in SzSet(n, o)}
+    IN {p \in raw : Work(p) <= o.work /\ Cardinality(Contr(p)) <= 6}
+ProgramsN(n) == UNION {ProgramsF(n, o) : o \in Opt(n)}
 
 Programs == UNION {ProgramsN(n) : n \in 2..4}
 
@@ -161,22 +166,29 @@ Programs == UNION {ProgramsN(n) : n \in 2..4}
 (* multi-index (values in {-2,-1,1,2,3}, not symmetric under axis exchange)  *)
 Val(k, mi) == LET h == (3 * k + SumSeq([d \in 1..Len(mi) |-> d * mi[d]])) % 5
               IN IF h = 2 THEN 3 ELSE h - 2
-Content(p, k) == LET sh == OpShape(p, k) IN [q \in 1..Prod(sh) |-> Val(k, Unflat(q, sh))]
+Content(p, k) == LET sh == Force(OpShape(p, k))
+                     st == Strides(sh)
+                 IN [q \in 1..Prod(sh) |-> Val(k, UnflatS(q, sh, st))]
 
 (* (1) reference semantics                                                    *)
 RefFlat(p) ==
-    LET osh == OutShape(p)
+    LET osh == Force(OutShape(p))
+        ost == Strides(osh)
         cs == SetToSeq(Contr(p))
-        csh == [j \in 1..Len(cs) |-> p.sz[cs[j]]]
+        csh == Force([j \in 1..Len(cs) |-> p.sz[cs[j]]])
+        cst == Strides(csh)
         np == Prod(csh)
         m == NOps(p)
+        \* where operand k, axis j takes its index value from: +position in the
+        \* output multi-index, or -position in the contracted multi-index
+        plan == Force([k \in 1..m |-> Force([j \in 1..Len(p.ix[k]) |->
+                    IF InSeq(p.out, p.ix[k][j]) THEN 1 + IndexOf(p.out, p.ix[k][j]) ELSE -IndexOf(cs, p.ix[k][j])])])
         entry(q) ==
-            LET mo == Unflat(q, osh)
+            LET mo == Force(UnflatS(q, osh, ost))
                 term(t) ==
-                    LET mc == Unflat(t, csh)
-                        env(s) == IF InSeq(p.out, s) THEN mo[1 + IndexOf(p.out, s)] ELSE mc[IndexOf(cs, s)]
+                    LET mc == Force(UnflatS(t, csh, cst))
                         arg(k) == (IF p.bs[k] = 0 THEN <<>> ELSE <<IF p.bs[k] = 1 THEN 1 ELSE mo[1]>>)
-                                  \o [j \in 1..Len(p.ix[k]) |-> env(p.ix[k][j])]
+                                  \o [j \in 1..Len(plan[k]) |-> IF plan[k][j] > 0 THEN mo[plan[k][j]] ELSE mc[-plan[k][j]]]
                     IN Prod([k \in 1..m |-> Val(k, arg(k))])
             IN SumSeq([t \in 1..np |-> term(t)])
     IN [q \in 1..Prod(osh) |-> entry(q)]
@@ -264,35 +276,41 @@ Rng(s) == {s[j] : j \in 1..Len(s)}
 AxisPerm(T, o) == SetToSortSeq(1..Len(T.ix), LAMBDA i, j : o.rank[T.ix[i]] * 100 + i < o.rank[T.ix[j]] * 100 + j)
 \* tf.transpose(j, trans): new axis k is old axis perm[k]
 TransposeFlat(T, perm) ==
-    LET nsh == [k \in 1..Len(perm) |-> T.sh[perm[k]]]
+    LET nsh == Force([k \in 1..Len(perm) |-> T.sh[perm[k]]])
+        nst == Strides(nsh)
         st == Strides(T.sh)
-    IN [q \in 1..Prod(nsh) |->
-          LET mn == Unflat(q, nsh)
-          IN T.fl[1 + SumSeq([k \in 1..Len(perm) |-> (mn[k] - 1) * st[perm[k]]])]]
+    IN IF \A k \in 1..Len(perm) : perm[k] = k THEN T.fl      \* "if list(i) == sorted_idx: return j"
+       ELSE [q \in 1..Prod(nsh) |->
+               LET mn == Force(UnflatS(q, nsh, nst))
+               IN T.fl[1 + SumSeq([k \in 1..Len(perm) |-> (mn[k] - 1) * st[perm[k]]])]]
 \* expand_shape_it: sizes looked up by symbol in the operand's ORIGINAL idx/shape
-ExShape(T, req) == [d \in 1..Len(req) |-> IF InSeq(T.ix, req[d]) THEN T.sh[IndexOf(T.ix, req[d])] ELSE 1]
+ExShape(T, req) == Force([d \in 1..Len(req) |-> IF InSeq(T.ix, req[d]) THEN T.sh[IndexOf(T.ix, req[d])] ELSE 1])
 BroadcastOK(a, b) == \A d \in 1..Len(a) : a[d] = b[d] \/ a[d] = 1 \/ b[d] = 1
 BMul(sa, fa, sb, fb) ==
-    LET psh == [d \in 1..Len(sa) |-> IF sa[d] > sb[d] THEN sa[d] ELSE sb[d]]
+    LET psh == Force([d \in 1..Len(sa) |-> IF sa[d] > sb[d] THEN sa[d] ELSE sb[d]])
+        pst == Strides(psh)
         sta == Strides(sa)
         stb == Strides(sb)
     IN [sh |-> psh,
         fl |-> [q \in 1..Prod(psh) |->
-                  LET mq == Unflat(q, psh)
+                  LET mq == Force(UnflatS(q, psh, pst))
                   IN fa[1 + SumSeq([d \in 1..Len(sa) |-> IF sa[d] = 1 THEN 0 ELSE (mq[d] - 1) * sta[d]])]
                      * fb[1 + SumSeq([d \in 1..Len(sb) |-> IF sb[d] = 1 THEN 0 ELSE (mq[d] - 1) * stb[d]])]]]
 ReduceSum(sh, fl, axes) ==
     LET keep == SetToSortSeq({d \in 1..Len(sh) : d \notin axes}, LAMBDA x, y : x < y)
         sax == SetToSortSeq(axes, LAMBDA x, y : x < y)
-        rsh == [j \in 1..Len(keep) |-> sh[keep[j]]]
-        ssh == [j \in 1..Len(sax) |-> sh[sax[j]]]
+        rsh == Force([j \in 1..Len(keep) |-> sh[keep[j]]])
+        rst == Strides(rsh)
+        ssh == Force([j \in 1..Len(sax) |-> sh[sax[j]]])
+        sst == Strides(ssh)
+        ns == Prod(ssh)
         st == Strides(sh)
     IN [sh |-> rsh,
         fl |-> [q \in 1..Prod(rsh) |->
-                  LET mk == Unflat(q, rsh)
+                  LET mk == Force(UnflatS(q, rsh, rst))
                       base == SumSeq([j \in 1..Len(keep) |-> (mk[j] - 1) * st[keep[j]]])
-                  IN SumSeq([t \in 1..Prod(ssh) |->
-                        LET ms == Unflat(t, ssh)
+                  IN SumSeq([t \in 1..ns |->
+                        LET ms == Force(UnflatS(t, ssh, sst))
                         IN fl[1 + base + SumSeq([j \in 1..Len(sax) |-> (ms[j] - 1) * st[sax[j]]])]])]]
 
 \* result of contracting parts A, B given the other operands `others`;
@@ -365,7 +383,7 @@ RaiseOnlyTied == pc = "raised" => ord.tied
 \* declining at the rank check happens exactly for the rank-0 `total`
 DeclineIffScalar == pc # "start" => ((pc = "declined") <=> RankMismatch(prog))
 \* removing size-1 indices keeps the data
-SqueezeKeeps == pc = "run" => \A T \in cur : Cardinality(T.src) = 1 =>
+SqueezeKeeps == pc = "run" /\ Cardinality(cur) = NOps(prog) => \A T \in cur :
                    T.fl = Content(prog, CHOOSE k \in T.src : TRUE)
 
 \* design-level finding (expected to FAIL while StrictOrder = FALSE)
@@ -381,12 +399,13 @@ ExprOf(p) ==
 
 \* one representative iteration order per distinct ordering result
 OrderReps(p) ==
-    LET ps == Perms(p)
-        os == {OrderOf(p, q) : q \in ps}
-    IN {[perm |-> [j \in 1..Len(q) |-> SymStr(q[j])],
-         tied |-> OrderOf(p, q).tied,
-         tot |-> [j \in 1..Len(OrderOf(p, q).tot) |-> IF OrderOf(p, q).tot[j] = BATCH THEN "." ELSE SymStr(OrderOf(p, q).tot[j])]]
-        : q \in {CHOOSE q \in ps : OrderOf(p, q) = o : o \in os}}
+    LET pairs == {<<q, OrderOf(p, q)>> : q \in Perms(p)}
+        os == {pr[2] : pr \in pairs}
+    IN {LET pr == CHOOSE x \in pairs : x[2] = o
+        IN [perm |-> [j \in 1..Len(pr[1]) |-> SymStr(pr[1][j])],
+            tied |-> o.tied,
+            tot |-> [j \in 1..Len(o.tot) |-> IF o.tot[j] = BATCH THEN "." ELSE SymStr(o.tot[j])]]
+        : o \in os}
 
 Row(p) ==
     [expr |-> ExprOf(p),
